@@ -227,9 +227,10 @@ class Script:
         if self.batch and joinable:
             if t == self.t and self.E.flag("join_%s" % name):
                 self.batch.append(cb)
-                return
+                return True
         self.flush()
         self.t, self.batch, self.name = t, [cb], name
+        return False
 
     def flush(self):
         if self.batch:
